@@ -11,7 +11,10 @@ package main
 import (
 	"context"
 	"fmt"
+	"regexp"
+	"strconv"
 	"strings"
+	"sync"
 	"time"
 
 	metav1 "k8s.io/apimachinery/pkg/apis/meta/v1"
@@ -459,6 +462,127 @@ var _ = metav1.Now
 
 // ------------------------------------------------------------------ engine A: the first answer arrives while requests run
 
+// ------------------------------------------------------------------ the real acquire worker and its timers
+// Everything above hands answers to the limiter by direct calls. The count strategy's own machinery - the acquire
+// worker, the per-schema silence check, the periodic resync - runs on real timers, so it is exercised once in real
+// time: a server that answers, then falls SILENT (its answers carry no result for the schema), then recovers. Verdicts
+// wait generously (30 s) for the state the property demands; the code's own detection takes about 5 s.
+
+func silentServer(c *ev.Check) {
+	vtime.SetReal()
+	defer vtime.SetReal()
+	remote.VerifSetWaitAcquireTimeout(time.Millisecond)
+	ctx, cancel := context.WithCancel(context.Background())
+	defer cancel()
+	st := newStub()
+	var mu sync.Mutex
+	mode := "grant" // grant | silent | error
+	calls := 0
+	st.gw.PrependReactor("create", "ratelimitconditions", func(a k8stesting.Action) (bool, runtime.Object, error) {
+		ca, ok := a.(k8stesting.CreateAction)
+		if !ok || a.GetSubresource() != "acquire" {
+			return false, nil, nil
+		}
+		req := ca.GetObject().(*proxyv1alpha1.RateLimitAcquire).DeepCopy()
+		mu.Lock()
+		m := mode
+		calls++
+		mu.Unlock()
+		switch m {
+		case "silent":
+			return true, req, nil // 200, but no result for any schema
+		case "error":
+			return true, nil, fmt.Errorf("limiter server unavailable")
+		}
+		for _, r := range req.Spec.Requests {
+			req.Status.Results = append(req.Status.Results, proxyv1alpha1.RateLimitAcquireResult{FlowControl: r.FlowControl, Accept: true, Limit: globalMax})
+		}
+		return true, req, nil
+	})
+	// as ClusterInfo does: created local, switched to remote when the GlobalRateLimiter gate is on - that switch starts
+	// the real reconcile loop
+	lim := flowcontrols.NewUpstreamLimiter(ctx, "c1", "", st)
+	lim.ResetLimiter(flowcontrol.RemoteFlowControls)
+	lim.Sync(proxyv1alpha1.FlowControl{Schemas: []proxyv1alpha1.FlowControlSchema{mifSchema(proxyv1alpha1.GlobalCountLimit, globalMax)}})
+	defer lim.Sync(proxyv1alpha1.FlowControl{})
+	admitted := func() int {
+		fc := lim.GetOrDefault("s")
+		n := 0
+		for i := 0; i < globalMax+2; i++ {
+			if fc.TryAcquire() {
+				n++
+			}
+		}
+		for i := 0; i < n; i++ {
+			fc.Release()
+		}
+		return n
+	}
+	// traffic keeps the worker busy, as requests would
+	stop := make(chan struct{})
+	defer close(stop)
+	go func() {
+		for {
+			select {
+			case <-stop:
+				return
+			case <-time.After(100 * time.Millisecond):
+				fc := lim.GetOrDefault("s")
+				if fc.TryAcquire() {
+					fc.Release()
+				}
+			}
+		}
+	}()
+	// the limit in force is read off the limiter's own description (size=N) - not probed: on an error the wrapper falls
+	// back to max(local limit, in-flight level it has recently seen), and a probe that fills the bucket would itself
+	// raise that level
+	sizeRe := regexp.MustCompile(`size=(\d+)`)
+	inForce := func() int {
+		m := sizeRe.FindStringSubmatch(lim.GetOrDefault("s").String())
+		if m == nil {
+			return -1
+		}
+		n, _ := strconv.Atoi(m[1])
+		return n
+	}
+	waitFor := func(want int, d time.Duration) (int, bool) {
+		deadline := time.Now().Add(d)
+		got := -1
+		for time.Now().Before(deadline) {
+			if got = inForce(); got == want {
+				return got, true
+			}
+			time.Sleep(50 * time.Millisecond)
+		}
+		return got, false
+	}
+	_ = admitted
+	c.Add("real_time_scenarios", 1)
+	if got, ok := waitFor(globalMax, 30*time.Second); !ok {
+		c.Violation("mif-globalCount/real-loops/quota-not-applied", fmt.Sprintf("the server grants %d through the real acquire worker, but %d requests are admitted after 30 s (local limit %d)", globalMax, got, localMax), nil)
+		return
+	}
+	for _, quiet := range []string{"silent", "error"} {
+		mu.Lock()
+		mode = quiet
+		mu.Unlock()
+		if got, ok := waitFor(localMax, 30*time.Second); !ok {
+			c.Violation("mif-globalCount/real-loops/no-local-fallback", fmt.Sprintf("the limiter server has been %s for 30 s (no usable answer for the schema), yet %d requests are admitted; the local limit is %d", map[string]string{"silent": "silent", "error": "failing"}[quiet], got, localMax), map[string]string{"server": quiet})
+			return
+		}
+		c.Outcome("probe_outcomes", "real-loops/"+quiet+"/fallback")
+		mu.Lock()
+		mode = "grant"
+		mu.Unlock()
+		if got, ok := waitFor(globalMax, 30*time.Second); !ok {
+			c.Violation("mif-globalCount/real-loops/quota-not-restored", fmt.Sprintf("the server has been answering again for 30 s (grant %d), yet %d requests are admitted", globalMax, got), map[string]string{"server": quiet})
+			return
+		}
+		c.Outcome("probe_outcomes", "real-loops/"+quiet+"/recovered")
+	}
+}
+
 func harnessFirstAnswer(c *ev.Check, bound int) xa.Harness {
 	body := func() interface{} {
 		var w *world
@@ -541,6 +665,7 @@ func main() {
 	for _, b := range []int{0, 1, 2} {
 		tasks = append(tasks, xa.Tasks(c, harnessFirstAnswer(c, b))...)
 	}
+	tasks = append(tasks, ev.Task{Name: "real-loops-silent-server", Run: func() { silentServer(c) }})
 	c.RunTasks(tasks)
 	c.Finish(map[string]interface{}{
 		"evaluations":         c.Counter("probes") + c.Counter("schedules"),
